@@ -13,7 +13,7 @@ PROP_FILE = 'props/C03.v'
 
 HIDDEN = ['hidden', 'secret', 'gone', 'decoy', 'idx ', 'sec:', 'file.png',
           'cmt', 'note', 'width=', '3cm', 'draw', 'node', 'unused']
-MARK = re.compile(r'[qxzjQXZJ]{2,4}\d+k[éßЖü]?')
+MARK = re.compile(r'[qxzjQXZJ]{2,4}\d+k[éßяü]?')
 
 
 def project(r):
@@ -35,7 +35,8 @@ def oracle(c, d, kind, im):
             continue        # skip comments are switched off
         if h in allt:
             return 'hidden text %r appears in the output' % h
-    if re.search(r'\\[A-Za-z]', allt):
+    # (a replacement list may itself insert a backslash: 'a b & c\\d')
+    if not any('\\' in x for x in (c.repl or [])) and re.search(r'\\[A-Za-z]', allt):
         return 'control sequence left in the output: %r' % re.search(
             r'\\[A-Za-z]+', allt).group(0)
     # each word once
